@@ -26,13 +26,19 @@ def generate(rng, tier):
         if r < 0.25:
             xs = [(p, nd) for p, nd in all_nodes(c) if tag(nd) == 'xv']
             ss = [(p, nd) for p, nd in all_nodes(c) if tag(nd) == 'af' and nd[1] == 'singleton']
-            kind = rng.choice(['noaddr', 'negx', 'negs'])
+            kind = rng.choice(['noaddr', 'negx', 'negs', 'sameaddr', 'sameaddr'])
             if kind == 'noaddr' and xs:
                 p, nd = rng.choice(xs)
                 c = replace_at(c, p, nd[:4] + [attrs()]); c[1] += '-noaddr'
             elif kind == 'negx' and xs:
                 p, nd = rng.choice(xs)
                 c = replace_at(c, p, nd[:4] + [attrs(a_int('address', -rng.choice([1, 16, 4096])))]); c[1] += '-negx'
+            elif kind == 'sameaddr' and len(xs) >= 2:
+                # two views of one global: both accessors must still be emitted
+                (p1, x1), (p2, x2) = rng.sample(xs, 2)
+                a1 = [a for a in x1[4][1:] if tag(a) == 'af' and a[1] == 'address']
+                if a1:
+                    c = replace_at(c, p2, x2[:4] + [attrs(*([a for a in x2[4][1:] if not (tag(a) == 'af' and a[1] == 'address')] + a1))]); c[1] += '-sameaddr'
             elif ss:
                 p, nd = rng.choice(ss)
                 c = replace_at(c, p, a_int('singleton', -rng.choice([1, 4096]))); c[1] += '-negs'
